@@ -49,11 +49,18 @@ pub struct CfbOpts {
     pub placement: u8,
     /// allocate the directory chain right after the FAT/DIFAT sectors instead of last. `random()` leaves it off.
     pub dir_first: bool,
+    /// take the `extra_free` free sectors right AFTER the FAT/DIFAT sectors (before the chains) instead of leaving
+    /// them at the end of the allocation order: with `placement` 0 and no shuffle the tables are at the front of
+    /// the file and every chain (the directory last) at the very END of the sector range, i.e. in the part of the
+    /// allocation table that only the LAST FAT sector(s) cover. With `extra_free_for_fat_sectors` this builds files
+    /// with an exact number of FAT sectors (237 = 109 + 128: the first count for which the DIFAT walk needs the
+    /// link of a second DIFAT sector). `random()` leaves it off.
+    pub free_after_tables: bool,
 }
 
 impl Default for CfbOpts {
     fn default() -> CfbOpts {
-        CfbOpts { sector_size: 512, shuffle: false, mini_shuffle: false, extra_free: 0, unused_dirs: 0, dir_shuffle: false, min_fat_sectors: 0, fill: 0, name_garbage: false, placement: 0, dir_first: false }
+        CfbOpts { sector_size: 512, shuffle: false, mini_shuffle: false, extra_free: 0, unused_dirs: 0, dir_shuffle: false, min_fat_sectors: 0, fill: 0, name_garbage: false, placement: 0, dir_first: false, free_after_tables: false }
     }
 }
 
@@ -66,6 +73,7 @@ impl CfbOpts {
         CfbOpts {
             placement: 0,
             dir_first: false,
+            free_after_tables: false,
             name_garbage,
             sector_size: if v4 { 4096 } else { 512 },
             shuffle: rng.chance(3, 4),
@@ -144,6 +152,33 @@ pub fn unused_dir_entry() -> Vec<u8> {
 fn pad_to(v: &mut Vec<u8>, multiple: usize, fill: u8) {
     let n = v.len().div_ceil(multiple) * multiple;
     v.resize(n, fill);
+}
+
+/// number of sectors `write_cfb` allocates for chains (mini FAT, mini stream, regular streams, directory),
+/// not counting free, FAT and DIFAT sectors
+pub fn chain_sectors(streams: &[(String, Vec<u8>)], opts: &CfbOpts) -> usize {
+    let ss = opts.sector_size;
+    let nm: usize = streams.iter().map(|(_, d)| if d.len() < 4096 { d.len().div_ceil(64) } else { 0 }).sum();
+    let mut n = (1 + streams.len() + opts.unused_dirs).div_ceil(ss / 128);
+    if nm > 0 {
+        n += (nm * 4).div_ceil(ss) + (nm * 64).div_ceil(ss);
+    }
+    n + streams.iter().filter(|(_, d)| d.len() >= 4096).map(|(_, d)| d.len().div_ceil(ss)).sum::<usize>()
+}
+
+/// the `extra_free` that makes `write_cfb(streams, opts)` need exactly `n_fat` FAT sectors, the file having the
+/// largest size with that count (`n_fat * sector_size / 4` sectors); `None` if the chains alone need more.
+/// `opts.min_fat_sectors` must not exceed `n_fat`.
+pub fn extra_free_for_fat_sectors(streams: &[(String, Vec<u8>)], opts: &CfbOpts, n_fat: usize) -> Option<usize> {
+    let per_fat = opts.sector_size / 4;
+    let ndif = if n_fat <= 109 { 0 } else { (n_fat - 109).div_ceil(per_fat - 1) };
+    let used = chain_sectors(streams, opts) + n_fat + ndif;
+    let total = n_fat * per_fat;
+    // with one FAT sector less the table would be too small
+    if used > total || (n_fat > 1 && total <= (n_fat - 1) * per_fat) {
+        return None;
+    }
+    Some(total - used)
 }
 
 /// Build a compound file holding `streams` (name, content). Names: at most 31 UTF-16 units, distinct,
@@ -236,6 +271,11 @@ pub fn write_cfb(streams: &[(String, Vec<u8>)], opts: &CfbOpts, rng: &mut Rng) -
     let mut sectors: Vec<Vec<u8>> = vec![vec![opts.fill; ss]; total];
     let fat_ids: Vec<usize> = (0..nfat).map(|_| it.next().unwrap()).collect();
     let dif_ids: Vec<usize> = (0..ndif).map(|_| it.next().unwrap()).collect();
+    if opts.free_after_tables {
+        for _ in 0..opts.extra_free {
+            it.next(); // stays FREESECT in the FAT, `fill` bytes in the file
+        }
+    }
     for &i in &fat_ids {
         fat[i] = FATSECT;
     }
